@@ -70,7 +70,7 @@ def _worker_init():
 
 
 def write_replay(prop, seed, v, case, digest=None, minimised=None):
-    d = os.path.join(VERIF, 'replays')
+    d = os.environ.get('VERIF_REPLAY_DIR') or os.path.join(VERIF, 'replays')
     os.makedirs(d, exist_ok=True)
     key = hashlib.sha256(dumps([v['clause'], v['site'], case]).encode()).hexdigest()[:12]
     path = os.path.join(d, '%s_%s.json' % (prop, key))
@@ -261,8 +261,9 @@ def run_check(prop, tier, seed=None):
     }
     if hasattr(m, 'finalise_evidence'):
         m.finalise_evidence(ev['coverage'])
-    os.makedirs(os.path.join(VERIF, 'evidence'), exist_ok=True)
-    with open(os.path.join(VERIF, 'evidence', '%s.json' % prop), 'w') as f:
+    evdir = os.environ.get('VERIF_EVIDENCE_DIR') or os.path.join(VERIF, 'evidence')
+    os.makedirs(evdir, exist_ok=True)
+    with open(os.path.join(evdir, '%s.json' % prop), 'w') as f:
         json.dump(ev, f, indent=1, sort_keys=True)
     print('%s: runs=%d evals=%d distinct=%d faults=%d violations(new)=%d known=%d wall=%.1fs digest=%s' % (
         prop, tot['runs'], tot['evals'], len(tot['sigs']), sum(tot['faults'].values()),
